@@ -33,6 +33,22 @@ func anyEqual(got []ev.Event, wants [][]ev.Event) bool {
 	return ok
 }
 
+// extPad (SLEN=m > 0): a string of an extended event is padded with a fixed pattern to
+// a length chosen in 2..m (choice 0/1: left as it is) - short-string fast paths and
+// scratch buffers of the encoders.
+func extPad(h *rt.H, s []byte) []byte {
+	m := h.Param("SLEN", 0)
+	if m == 0 {
+		return s
+	}
+	l := h.Choose("slen", 0, m)
+	out := cloneBytes(s)
+	for j := len(out); j < l; j++ {
+		out = append(out, byte('a'+j%26))
+	}
+	return out
+}
+
 // extEncode (C10, C07): an extended event through an encoder, at top level, inside
 // an array followed by a scalar, or inside an object followed by another member;
 // the bytes are decoded by the reference decoder and must describe
@@ -43,6 +59,9 @@ func extEncode(h *rt.H, c *codec) {
 	// NBIG: array events (0..14) with lengths around the points where the length
 	// prefix of CBOR (23/24) and of CBOR/UBJSON (255/256) changes width
 	eo := extOptsFor(c)
+	if h.Param("SLEN", 0) > 0 {
+		h.Assume(k == 1 || k == 16 || k == 29) // the events carrying strings
+	}
 	if nb := h.Param("NBIG", 0); nb > 0 {
 		h.Assume(k >= 2 && k <= 12) // the integer arrays and OnBytes
 		n = [][]int{{23, 24, 25}, {255, 256}}[nb-1][h.Choose("nbig", 0, 2-(nb-1))]
